@@ -1,5 +1,6 @@
 import IpldModel.Model.Term
 import IpldModel.Model.Assembler
+import IpldModel.Model.NodeRead
 namespace Ipld.Driver
 open Ipld Ipld.Asm
 
@@ -70,6 +71,17 @@ def asmHandler : List String → Option String
         | none => "unfinished"
       some (" ".intercalate (outs.map showOut) ++ " | " ++ fin)
     | _, _ => some "bad-args"
+  | "node.row" :: toks =>
+    match parseTermAll toks with
+    | some d => some (NodeRead.row d)
+    | none => some "bad-term"
+  | "node.eq" :: toks =>
+    match parseTerm toks with
+    | some (a, rest) =>
+      match parseTermAll rest with
+      | some b => some (if NodeRead.deepEqual a b then "true" else "false")
+      | none => some "bad-term"
+    | none => some "bad-term"
   | "asm.plan" :: toks =>
     match parseTermAll toks with
     | some d =>
